@@ -97,7 +97,10 @@ EncV(a, h) ==
             <<"same-variables", Vars(h) = Sources(G(T.g))>>,
             <<"every-triple-exactly-once", BagOf(Canon(h, M)) = BagOf(Canon([top |-> EncTop, tr |-> T.g.tr], M))>>,
             <<"text-reparses-to-the-tree", T.out.re.ok /\ T.out.re.tree = Norm(T.out.tree)>>,
-            <<"decode-gives-the-reading-of-the-text", T.out.g2.top = h.top /\ T.out.g2.tr = h.tr>> >>, 1)
+            <<"decode-gives-the-reading-of-the-text", T.out.g2.top = h.top /\ T.out.g2.tr = h.tr>>,
+            <<"penman.encode-succeeds " \o T.out.api.exc, T.out.api.ok>>,
+            <<"penman.encode-is-format-of-configure", T.out.api.text = T.out.text /\ T.out.api.codec_text = T.out.text>>,
+            <<"penman.decode-of-penman.encode-gives-the-graph", T.out.api.g2 = T.out.g2>> >>, 1)
 
 (* ---------------- kind = "rearrange" (C05) ---------------- *)
 \* T: tree, key, af, model, after, exc
